@@ -62,3 +62,51 @@ func loopMain(n, capture string) string {
 		return "::top::\n do\n local j = (count or 0) * 10\n " + init + "\n " + capture + "\n count = count + 1\n end\n if count < 3 then goto top end"
 	}
 }
+
+// EnumConstWindowShapes: the same block of statements — every operand position that can hold a constant (RK operands
+// of arithmetic, comparison and concatenation, table keys and stored values, global names, method names on local,
+// global, field, literal and call-result receivers) — compiled behind a filler of n distinct constants, for every n
+// in a window below each operand-width boundary (256: RK operands, 512/768/1024: 9-bit operand wrap-around), so
+// that each constant of the block gets every pool index around the boundary in one of the programs.
+func EnumConstWindowShapes(boundaries []int) []*Program {
+	block := `local x, t, s = 7, {sub = {}}, "str"
+emit(1, x + 900001, 900002 - x, x * 900003, x < 900004, 900005 <= x, x == 900006, x .. "k1", "k2" .. x)
+t[900007] = 900008
+t.fieldA = "valA"
+t["fieldB"] = x
+emit(2, t[900007], t.fieldA, t.fieldB, t[900009], t.nofield)
+G1 = 900010
+emit(3, G1, G1 + 900011, 900012 / G1 > 0)
+function t.sub:meth1(a) return self == t.sub, a end
+Gobj = {meth2 = function(self, a) return self == Gobj, a + 900013 end}
+local function mk() return {meth3 = function(self) return "m3" end} end
+emit(4, s:upper(), ("lit"):rep(2), Gobj:meth2(5), t.sub:meth1(900014), mk():meth3())
+emit(5, s:len(), Gobj:meth2(900015), x % 900016, x ^ 2, -x + 900017, not (x ~= 900018))
+local u = {900019, "sv1", [900020] = "sv2", fieldC = 900021, "sv3"}
+emit(6, u[1], u[2], u[900020], u.fieldC, u[3])
+for i = 900022, 900023 do emit(7, i, i - 900022 == 0) end
+if x > 900024 or x == 7 and "sv4" then emit(8, x < 900025 and "sv5" or "sv6") end
+return x + 900026, "last"`
+	var out []*Program
+	for _, b := range boundaries {
+		for n := b - 44; n <= b+2; n++ {
+			if n < 0 {
+				continue
+			}
+			var sb []byte
+			sb = append(sb, "local fill = {"...)
+			for i := 0; i < n; i++ {
+				if i > 0 {
+					sb = append(sb, ',')
+					if i%20 == 0 {
+						sb = append(sb, '\n')
+					}
+				}
+				sb = append(sb, fmt.Sprint(500001+i)...)
+			}
+			sb = append(sb, "}\nemit(0, #fill)\n"...)
+			out = append(out, shapeProgram(string(sb)+block, "shape:const-window", fmt.Sprintf("boundary:%d", b)))
+		}
+	}
+	return out
+}
